@@ -86,6 +86,8 @@ def member_text(m, j, file="", dup=False):
         head += " validation-mode:fail"
     elif m["fam"] == "error_vm_nofail":
         head += " validation-mode:no-fail"
+    if m.get("explain"):
+        head += " explain-mode:explain"
     return f"~{head}~ ${file}[{m.get('scan', '*')}][ {PRE} {family_body(m['fam'], m['K'])} {POST} ]"
 
 
@@ -106,6 +108,10 @@ def generate(rng, i, tier):
     planted = sorted(l for l in range(1, nrec) if l not in blanks and rng.random() < 0.3)
     k = rng.randint(1, 4)
     members = [{"fam": rng.choice(FAMILIES), "K": rng.randint(0, nrec), "K2": rng.randint(0, nrec)} for _ in range(k)]
+    for m in members:
+        if rng.random() < 0.15:
+            # explain-mode only adds a description of each match to the log: the verdict must not depend on it
+            m["explain"] = True
     for m in members:
         if rng.random() < 0.08:
             # a member whose scan selects no line of the file at all: it runs, evaluates nothing and stays valid
@@ -391,6 +397,7 @@ def execute(sc):
         out.extra["manager_polls_midrun"] = online.get("mgr_polls", 0)
         out.probe("run after an earlier run that used a cross-path signal on the same instance", False)
         out.probe("members sharing one identity", bool(sc.get("dup_ids")))
+        out.probe("member with explain-mode", any(m.get("explain") for m in members))
         out.probe("member whose scan selects no line", any(m.get("scan", "*") != "*" for m in members))
         out.probe("verdict event on the last line", "last" in pos)
         out.probe("group with both valid and failed members", k > 1 and len(set(wants)) == 2)
